@@ -66,4 +66,112 @@ Qed.
 
 Lemma Kernel_nil s r c s' r' c' : Kernel [] [] s r c s' r' c' = delta s s' * delta r r' * cj (delta c c').
 Proof. unfold Kernel. cbn [rows cols map dsum chain zeros]. reflexivity. Qed.
+
+Lemma block_swap_3_5 n1 n2 n3 m1 m2 m3 m4 m5 (F : nat -> nat -> nat -> nat -> nat -> nat -> nat -> nat -> R) :
+  sum n1 (fun i1 => sum n2 (fun i2 => sum n3 (fun i3 =>
+    sum m1 (fun j1 => sum m2 (fun j2 => sum m3 (fun j3 => sum m4 (fun j4 => sum m5 (fun j5 => F i1 i2 i3 j1 j2 j3 j4 j5)))))))) =
+  sum m1 (fun j1 => sum m2 (fun j2 => sum m3 (fun j3 => sum m4 (fun j4 => sum m5 (fun j5 =>
+    sum n1 (fun i1 => sum n2 (fun i2 => sum n3 (fun i3 => F i1 i2 i3 j1 j2 j3 j4 j5)))))))).
+Proof.
+  exact (msum_swap [n1; n2; n3] [m1; m2; m3; m4; m5]
+           (fun l1 l2 => match l1, l2 with
+                         | [i1; i2; i3], [j1; j2; j3; j4; j5] => F i1 i2 i3 j1 j2 j3 j4 j5
+                         | _, _ => 0
+                         end)).
+Qed.
+
+Theorem lstack_from_closed : forall (Xs As : list core) (L0 : st3 R) fx fa s' r' c',
+  length As = length Xs -> linked Xs fx -> linked As fa ->
+  a1 L0 = rl_of Xs fx -> a2 L0 = rl_of As fa -> a3 L0 = rl_of Xs fx ->
+  (s' < fx)%nat -> (r' < fa)%nat -> (c' < fx)%nat ->
+  f3 (lstack_from L0 Xs As) s' r' c' =
+  sum (a3 L0) (fun c => sum (a2 L0) (fun r => sum (a1 L0) (fun s => f3 L0 s r c * Kernel Xs As s r c s' r' c'))).
+Proof.
+  induction Xs as [|X Xs IH]; intros As L0 fx fa s' r' c' Hl LX LA H1 H2 H3 Hs Hr Hc.
+  - destruct As; [|discriminate]. cbn [lstack_from]. cbn [rl_of] in H1, H2, H3.
+    rewrite H1, H2, H3.
+    rewrite (sum_ext fx _ (fun c => if Nat.eqb c c' then sum fa (fun r => sum fx (fun s => f3 L0 s r c * (delta s s' * delta r r'))) else 0)).
+    + rewrite (sum_single fx c' (fun c => sum fa (fun r => sum fx (fun s => f3 L0 s r c * (delta s s' * delta r r'))))) by exact Hc.
+      rewrite (sum_ext fa _ (fun r => if Nat.eqb r r' then sum fx (fun s => f3 L0 s r c' * delta s s') else 0)).
+      * rewrite (sum_single fa r' (fun r => sum fx (fun s => f3 L0 s r c' * delta s s'))) by exact Hr.
+        rewrite (sum_ext fx _ (fun s => if Nat.eqb s s' then f3 L0 s r' c' else 0)).
+        -- symmetry. apply (sum_single fx s' (fun s => f3 L0 s r' c')). exact Hs.
+        -- intros s _. unfold delta. destruct (Nat.eqb s s'); ring.
+      * intros r _. unfold delta at 2. destruct (Nat.eqb r r').
+        -- apply sum_ext; intros s _. ring.
+        -- apply sum_zero'; intros s _. ring.
+    + intros c _. destruct (Nat.eqb_spec c c') as [E|E].
+      * subst c. apply sum_ext; intros r _. apply sum_ext; intros s _. rewrite Kernel_nil. unfold delta at 3. rewrite Nat.eqb_refl, conj_1. ring.
+      * apply sum_zero'; intros r _. apply sum_zero'; intros s _. rewrite Kernel_nil. unfold delta at 3.
+        destruct (Nat.eqb_spec c c'); [contradiction|]. rewrite conj_0. ring.
+  - destruct As as [|A As]; [discriminate|]. cbn in Hl.
+    destruct LX as (PX & LkX & LX). destruct LA as (PA & LkA & LA). cbn [rl_of] in H1, H2, H3.
+    cbn [lstack_from].
+    rewrite (IH As (left_op L0 X A) fx fa s' r' c'); try assumption; try lia; try (cbn [left_op a1 a2 a3]; assumption).
+    cbn [left_op a1 a2 a3 f3].
+    set (K := Kernel Xs As).
+    set (F := fun c1 r1 s1 c x r y s => f3 L0 s r c * (g X s y 0%nat s1 * g A r x y r1 * cj (g X c x 0%nat c1)) * K s1 r1 c1 s' r' c').
+    transitivity (sum (rr X) (fun c1 => sum (rr A) (fun r1 => sum (rr X) (fun s1 =>
+                    sum (a3 L0) (fun c => sum (md A) (fun x => sum (a2 L0) (fun r => sum (nd A) (fun y => sum (a1 L0) (fun s =>
+                      F c1 r1 s1 c x r y s))))))))).
+    { apply sum_ext; intros c1 _. apply sum_ext; intros r1 _. apply sum_ext; intros s1 _.
+      rewrite <- sum_scal_r. apply sum_ext; intros c _.
+      rewrite <- sum_scal_r. apply sum_ext; intros x _.
+      rewrite <- sum_scal_r, <- sum_scal_r. apply sum_ext; intros r _.
+      rewrite <- sum_scal_r, <- sum_scal_r. apply sum_ext; intros y _.
+      rewrite <- sum_scal_r, <- sum_scal_r, <- sum_scal_r. apply sum_ext; intros s _. unfold F. ring. }
+    rewrite block_swap_3_5.
+    apply sum_ext; intros c _.
+    (* (x, r, y, s) -> (r, s, x, y) *)
+    transitivity (sum (a2 L0) (fun r => sum (a1 L0) (fun s => sum (md A) (fun x => sum (nd A) (fun y =>
+                    sum (rr X) (fun c1 => sum (rr A) (fun r1 => sum (rr X) (fun s1 => F c1 r1 s1 c x r y s)))))))).
+    { rewrite sum_swap. apply sum_ext; intros r _.
+      transitivity (sum (md A) (fun x => sum (a1 L0) (fun s => sum (nd A) (fun y =>
+                      sum (rr X) (fun c1 => sum (rr A) (fun r1 => sum (rr X) (fun s1 => F c1 r1 s1 c x r y s))))))).
+      - apply sum_ext; intros x _. apply sum_swap.
+      - apply sum_swap. }
+    apply sum_ext; intros r _. apply sum_ext; intros s _.
+    rewrite Kernel_cons. fold K.
+    rewrite <- sum_scal_l. apply sum_ext; intros x _. rewrite <- sum_scal_l. apply sum_ext; intros y _.
+    rewrite sum3_swap_in.
+    rewrite <- sum_scal_l. apply sum_ext; intros s1 _. rewrite <- sum_scal_l. apply sum_ext; intros r1 _.
+    rewrite <- sum_scal_l. apply sum_ext; intros c1 _. unfold F. ring.
+Qed.
+
+Lemma decode3 m r1 c x c' : (x < m)%nat -> (c' < r1)%nat ->
+  (((c * m + x) * r1 + c') / (m * r1) = c /\ (((c * m + x) * r1 + c') / r1) mod m = x /\ ((c * m + x) * r1 + c') mod r1 = c')%nat.
+Proof.
+  intros Hx Hc'. repeat split.
+  - replace ((c * m + x) * r1 + c')%nat with (c * (m * r1) + (x * r1 + c'))%nat by ring.
+    apply div_mod_unique_l. nia.
+  - rewrite div_mod_unique_l by exact Hc'. apply div_mod_unique_r. exact Hx.
+  - apply div_mod_unique_r. exact Hc'.
+Qed.
+
+(* frame identity: the micro matrix of ALS at a position is the operator core sandwiched between the closed-form
+   environments, i.e. P^H A P for the frame P spanned by the solution cores left and right of the position *)
+Theorem frame_als (Xp Ap Xs As : list core) (A : core) fx c x c' s y s' :
+  length Ap = length Xp -> linked Xp fx -> linked Ap (rl A) -> rl_of Xp fx = 1%nat -> rl_of Ap (rl A) = 1%nat ->
+  length As = length Xs -> linked Xs 1%nat -> linked As 1%nat -> rl_of As 1%nat = rr A ->
+  (c < fx)%nat -> (s < fx)%nat -> (c' < rl_of Xs 1)%nat -> (s' < rl_of Xs 1)%nat -> (x < md A)%nat -> (y < nd A)%nat ->
+  snd (micro_op_als (lstack_from one3 Xp Ap) (rstack Xs As) A fx (rl_of Xs 1%nat))
+      ((c * md A + x) * rl_of Xs 1%nat + c')%nat ((s * nd A + y) * rl_of Xs 1%nat + s')%nat =
+  sum (rl A) (fun r => sum (rr A) (fun r' => Kernel Xp Ap 0%nat 0%nat 0%nat s r c * g A r x y r' * RightProd Xs As s' r' c')).
+Proof.
+  intros HlP LXp LAp H1X H1A HlS LXs LAs HrA Hc Hs Hc' Hs' Hx Hy.
+  unfold micro_op_als. cbn [snd].
+  destruct (decode3 (md A) (rl_of Xs 1%nat) c x c' Hx Hc') as (D1 & D2 & D3).
+  destruct (decode3 (nd A) (rl_of Xs 1%nat) s y s' Hy Hs') as (E1 & E2 & E3).
+  rewrite D1, D2, D3, E1, E2, E3.
+  destruct (lstack_dims one3 Xp Ap fx (rl A) HlP LXp LAp) as (_ & DL & _); try (cbn [one3 a1 a2 a3]; congruence).
+  rewrite DL.
+  destruct (rstack_dims Xs As) as (_ & DR & _).
+  assert (DR' : a2 (rstack Xs As) = rr A).
+  { rewrite DR, <- HrA. destruct Xs as [|X0 Xs0]; destruct As as [|A0 As0]; cbn in *; try lia; try reflexivity; discriminate. }
+  rewrite DR'.
+  apply sum_ext; intros r Hr. apply sum_ext; intros r' Hr'.
+  rewrite (lstack_from_closed Xp Ap one3 fx (rl A) s r c HlP LXp LAp); try (cbn [one3 a1 a2 a3]; congruence); try assumption.
+  rewrite (rstack_closed Xs As s' r' c' HlS LXs LAs Hs'); try assumption; [|rewrite HrA; exact Hr'].
+  cbn [one3 a1 a2 a3 f3 sum]. ring.
+Qed.
 End FrameProof.
